@@ -94,6 +94,14 @@ func newConcr(keys, vals []string, stype string, rng *rand.Rand, big ...string) 
 			c.val[v] = b
 		}
 	}
+	// abstract values must stay distinguishable when read back (at most one may be empty)
+	seen := map[string]bool{}
+	for _, v := range vals {
+		for seen[string(c.val[v])] {
+			c.val[v] = append(c.val[v], byte(len(seen)+1))
+		}
+		seen[string(c.val[v])] = true
+	}
 	return c
 }
 
